@@ -3,6 +3,9 @@
 import json, os
 HERE = os.path.dirname(os.path.dirname(os.path.abspath(__file__)))
 CHECKS = {
+ "C13": dict(cat="model_checking", technique="TLA+ row-list machine (TableOps): TLC MC + simulated behaviours replayed on real tables + TLC trace validation of random histories; immutability as an action property over recorded TreeSequence calls",
+    text="TableOps models a table as a sequence of row records with every public row/column operation as an action (keep_rows with self-reference remapping and dangling rejection). TLC model-checks the machine for the two self-referential classes, its simulated histories are replayed on real tables with full-content comparison after each step, and random histories on all eight table classes (16 operation kinds, failed operations included) are validated step by step by TLC. For immutability, every public TreeSequence property and ~40 TreeSequence/Tree/Variant calls are recorded with the tables digest after the call and after an attempted write into every returned ndarray; TLC checks tables'=tables over the trace.",
+    note="Row values are small integers/short byte strings; digest is a CRC computed by the harness; the call alphabet for immutability is finite and hand-chosen.", ref="DESIGN.md §3 C13"),
  "C03": dict(cat="model_checking", technique="TLA+ nearest-mutation genotype definition; TLC trace validation of Variant decode histories and whole-sequence genotype views",
     text="TskGenotypes defines the allele of every node at every site (nearest mutation, ancestral otherwise, missing rule). Real Variant objects are driven through arbitrary decode orders with copies, and variants/genotype_matrix/haplotypes/alignments are called with sample subsets incl. non-sample nodes, isolated_as_missing, user allele lists and intervals; TLC validates every recorded result (one TLC state per decode call, so the result is shown independent of history). Inputs: TLC-enumerated universe with an exhaustive <=2-mutation layer plus random tree sequences.",
     note="Alleles are abstract tokens; order of alleles after the first unconstrained; documented errors (non-sample nodes with isolated_as_missing, alignments with isolated samples) are accepted as such.", ref="DESIGN.md §3 C03"),
